@@ -29,6 +29,8 @@ KINDS = {
     "path-const-identity": ("M", "#[default(KM)]", "M { v: 5, via: 0 }"),
     "variant-path": ("Mode", "#[default(Mode::Fast)]", "Mode::Fast"),
     "none-Mode": ("Mode", None, "Mode::Slow"),
+    # a field type with an inherent `default()` that answers differently: the documented value is that of its `Default` impl
+    "none-Evil": ("Evil", None, "Evil(7)"),
     "call-bound": ("u8", "#[default(sd(3), bound(..))]", "sd(3)"),
     "int-lit-bound-empty": ("u8", "#[default(7, bound())]", "7u8"),
     "str-into-bound-empty": ("M", '#[default("ab", bound())]', "M { v: 2, via: 2 }"),
@@ -83,7 +85,7 @@ def build(name, shape, kinds, entry, variant_kind="named", type_value=None, nvar
             item += "impl T {\n    pub fn mk_t(m: u8) -> T { %s }\n}\npub const KT: T = %s;\n" % (
                 ctor % "m", (ctor % "77").replace("Default::default()", "CONSTDEF"))
             # const context: spell the defaults out
-            defaults = {"u8": "0", "i8": "0", "bool": "false", "char": "'\\0'", "M": "M { v: 0xD7, via: 9 }", "Mode": "Mode::Slow"}
+            defaults = {"u8": "0", "i8": "0", "bool": "false", "char": "'\\0'", "M": "M { v: 0xD7, via: 9 }", "Mode": "Mode::Slow", "Evil": "Evil(7)"}
             for k in kinds:
                 item = item.replace("CONSTDEF", defaults[KINDS[k][0]], 1)
         else:
